@@ -577,4 +577,51 @@ theorem mapper_inherited (b : TMapper) :
 example : mapKey (mapEnvOf [("A", { ser := some .lower, deser := some (.rename [("a_b", "k")]) })] "A") "a_b" = "k" := by
   decide
 
+/-! ## 5. order of first use: a fresh FastSerializable class whose first instance a trusted path makes -/
+
+/-- **C10 (first use), proved part**: the trusted constructor reaches `FastSerializable.__init__`
+    (which installs the class's serializer) once per supplied keyword, so for an instance made
+    from at least one value it does not matter whether the class was instantiated before:
+    `x.serialize()` is the document of the installed serializer -/
+theorem first_use_partial (Mp : MapEnv) (NF JK : List String) (had : Bool) (cls : FieldDecl) (x : PyVal)
+    (h : (attrsOf x).isEmpty = false) :
+    fastSerializeFirst Mp NF JK had cls x = fastSerialize Mp NF JK false false cls x := by
+  simp [fastSerializeFirst, installedAfterTrustedInit, h]
+
+/-- … and on a class that already has its serializer the history never matters -/
+theorem first_use_warm (Mp : MapEnv) (NF JK : List String) (cls : FieldDecl) (x : PyVal) :
+    fastSerializeFirst Mp NF JK true cls x = fastSerialize Mp NF JK false false cls x := by
+  simp [fastSerializeFirst, installedAfterTrustedInit]
+
+/-- the statement at full strength (history independence for every trusted-built instance) -/
+def first_use_statement : Prop :=
+  ∀ (Mp : MapEnv) (NF JK : List String) (cls : FieldDecl) (x : PyVal),
+    fastSerializeFirst Mp NF JK false cls x = fastSerializeFirst Mp NF JK true cls x
+
+/-- finding `first-use-order:no-values`: an instance made from no values leaves a fresh class
+    without its serializer: `serialize()` raises NotImplementedError where the warm class (and the
+    regular path) return `{}` -/
+def cxFirstUse : FieldDecl := mkCls "A" [] [("a", .integer {})]
+theorem counterexample_first_use_no_values :
+    createOk noMappers [] cxFirstUse = true
+    ∧ isErr (fastSerializeFirst noMappers [] [] false cxFirstUse (.inst "A" [])) = true
+    ∧ isDictDoc (fastSerializeFirst noMappers [] [] true cxFirstUse (.inst "A" [])) = true
+    ∧ isDictDoc (serialize exO cxFirstUse (.inst "A" [])) = true := by
+  decide
+
+theorem first_use_statement_false : ¬ first_use_statement := by
+  intro h
+  have h1 := counterexample_first_use_no_values.2.1
+  have h2 := counterexample_first_use_no_values.2.2.1
+  rw [h noMappers [] [] cxFirstUse (.inst "A" [])] at h1
+  cases hx : fastSerializeFirst noMappers [] [] true cxFirstUse (.inst "A" []) with
+  | ok v => rw [hx] at h1; cases h1
+  | error e => rw [hx] at h2; cases h2
+
+/-- non-vacuity: a trusted-built instance with values on a fresh class serializes as on a warm one -/
+theorem first_use_example :
+    (attrsOf (.inst "A" [("a", .int 1)])).isEmpty = false
+    ∧ isDictDoc (fastSerializeFirst noMappers [] [] false cxFirstUse (.inst "A" [("a", .int 1)])) = true := by
+  decide
+
 end Typedpy.C10
